@@ -7,7 +7,7 @@ use std::sync::OnceLock;
 static SVC: OnceLock<varlink::VarlinkService> = OnceLock::new();
 
 fuzz_target!(|data: &[u8]| {
-    let svc = SVC.get_or_init(|| vl_model::svc::t_service().0);
+    let svc = SVC.get_or_init(|| vl_tsvc::t_service().0);
     let none: HashMap<Vec<u8>, (vl_model::wire::Sym, usize)> = HashMap::new();
     if let Err(f) = vl_model::oracles::check_bytes(svc, &none, data, "handle") {
         panic!("C06 violation {}: {}", f.key, f.what);
